@@ -41,6 +41,7 @@ DEFAULT_PROFILE = {
     "cond": 0.35,      # probability that a PUT/DELETE carries a conditional header
     "invalid": 0.12,   # probability that a PUT body is from an invalid class
     "grammar": 0.25,   # probability that a valid body comes from the grammar-based generator
+    "untyped": 0.15,   # probability that a collection is created without a type (plain MKCOL)
     "len": 24,
 }
 
@@ -51,7 +52,8 @@ PROFILES = {
     "C06": {"put": 45, "delete": 14, "restart": 6, "post": 8, "uidheavy": True},
     "C07": {"delete": 18, "put": 34, "delcoll": 3, "mk": 5, "reupload": 6},
     "C08": {"proppatch": 12, "delete": 14, "reupload": 8, "restart": 5},
-    "C09": {"proppatch": 12, "lock": 6, "reupload": 8, "delete": 12},
+    "C09": {"proppatch": 12, "lock": 6, "reupload": 8, "delete": 9, "untyped": 0.45, "len": 36, "put": 40,
+            "get": 8, "manynames": True},
     "C14": {"invalid": 0.3, "reupload": 16, "put": 40, "grammar": 0.65},
     "C15": {"proppatch": 45, "restart": 8, "mk": 6, "delcoll": 3, "put": 12, "propheavy": True},
     "C16": {"mk": 8, "delcoll": 5, "post": 10},
@@ -134,7 +136,7 @@ def run_random_session(seed, prof, frontend="wsgi", prefix="/", backend="tree", 
         if backend == "tree":
             for c in slots:
                 if rng.random() < 0.8:
-                    k = kinds[c] if rng.random() < 0.85 else rng.choice(["calendar", "addressbook", "other"])
+                    k = kinds[c] if rng.random() >= prof["untyped"] else "other"
                     how = "auto"
                     if k == "calendar" and rng.random() < 0.3:
                         how = "xmkcol"
@@ -157,6 +159,8 @@ def run_random_session(seed, prof, frontend="wsgi", prefix="/", backend="tree", 
             if op == "put":
                 usevcf = (c == "ab1") != (rng.random() < 0.12)
                 names = VCF_NAMES if usevcf else ICS_NAMES
+                if prof.get("manynames") and not usevcf:
+                    names = ICS_NAMES + ["f.ics", "g.ics", "h.ics", "i.ics"]
                 n = rng.choice(names)
                 if rng.random() < prof["invalid"]:
                     data, valid = rng.choice(INVALID_VCF if usevcf else INVALID_ICS), False
